@@ -607,7 +607,10 @@ func quoteID(s string) string {
 	// Quote if s is not an ID. This includes strings containing spaces, except
 	// if those spaces are used within HTML string IDs (e.g. <foo >).
 	if !isID(s) {
-		return strconv.Quote(s)
+		// strconv.Quote leaves U+FFFD in place when it is validly
+		// encoded, but the DOT lexer does not accept it in any
+		// token, so write it as an escape sequence.
+		return strings.ReplaceAll(strconv.Quote(s), "\uFFFD", `\ufffd`)
 	}
 	return s
 }
